@@ -52,8 +52,36 @@ is judged only by O5 / "weights are set at all" (assumption: it is meant as an a
 ``inverse_unbiased_covariance``, used only to decide that the reference weights differ from
 identity).
 
-Every configuration is evaluated on a freshly constructed loss object.
-Violation keys: ``<class or family>:<mode>:<mechanism>``.
+Every configuration is first evaluated on a freshly constructed loss object (O1..O5 above).
+
+History / combination steps (same oracles, objects with a past; everything is a public operation, and each case
+carries its whole history so that a replay reproduces it).  Per case and loss family one *veteran* V and one *rival*
+R of the same class are driven through the same plan for the generic and the fast class:
+
+ 1 V fresh (option or constructor path)          2 R fresh: other tomography of the SAME shape, other data / mode
+ 3 V and R asked again, interleaved, other order of value / gradient                      (":second-call")
+ 4 V re-set by ``set_from_standard_qtomography_option_data`` with the same tomography and the same option OBJECT
+   and the next dataset - what ``calc_estimate_sequence`` does with one loss object       (":re-used-object")
+ 5 ``set_prob_dists_q(new data)``   6/7 ``set_weight_matrices`` / ``set_weights`` (other custom weights, None; either
+   order)   8 the model setters (``set_func_*prob_dists`` resp. ``..._from_standard_qt``) with a third tomography
+   of the same shape, weights kept                                                          (":after-setter")
+ 9 re-set with another tomography of the same shape, 10 of ANOTHER shape (other parametrisation / number of
+   outcomes; sometimes ``is_gradient_required=False`` and value only), 11 back to the first tomography with new
+   data and another mode; 12 R re-set with V's option object and data list                 (":re-used-object")
+
+After every step the Judge is told what the object was given last, O1 is judged where weights were (re)configured,
+the hooks judge every value / gradient (/ Hessian at 1, 9, 11) by O2 / O3 against the model, data and visible weights
+now in force, and the veteran's FIRST point is asked again wherever the shape allows (a memo keyed by the argument
+alone only shows on the same argument).  ``H O4``: fast == generic step by step.  ``H returned arrays unchanged``:
+every array a loss / entropy / matrix_util function returned is kept and must be unchanged at the end of the case
+(same object compared with a copy: no rounding involved).  Not demanded: that ``set_prob_dists_q`` recomputes
+inverse-covariance weights (O1 is not re-judged there), bit-equality of repeated calls, ``num_var`` of the fast
+classes.  Functions shard: every entropy function is called again with exactly one argument changed and then with
+the first arguments; ``calc_covariance_mat`` / ``replace_prob_dist`` likewise; a second SimpleQuadraticLossFunction of
+the same size is built and asked before the first one is asked again (":second-call", ":rival-of-same-size").
+
+Violation keys: ``<class or family>:<mode>:<mechanism>[:second-call | :after-setter | :re-used-object]``; keys that
+carry such a suffix can only come from a history step.
 """
 import numpy as np
 
@@ -68,7 +96,12 @@ RULE = ("per case: one random tomography (QST / POVMT / QPT / QMPT on a qubit, m
         "setter, all inverse-covariance mode strings) on a fresh loss object, evaluated at points inside and outside the "
         "physical set (entropy losses: p >= 1e-4 wherever q > 0).  A case is distinct by (tomography, m, flag, class, "
         "mode, path, rounded var, rounded data, rounded weights) and non-trivial when value > 0 and at least one of: "
-        "m >= 3, non-identity weights, a zero entry in the data, a non-physical point")
+        "m >= 3, non-identity weights, a zero entry in the data, a non-physical point.  History steps per case and family "
+        "(generic and fast class alike): a veteran and a rival loss object of the same class and shape are asked again "
+        "interleaved, re-set through set_from_standard_qtomography_option_data (same option object + next dataset; other "
+        "tomography of the same shape; of another shape; back), changed through set_prob_dists_q / set_weight_matrices / "
+        "set_weights / the model setters, and judged by the same oracles after every step; returned arrays must stay "
+        "unchanged by later calls; pure functions are called again with one argument changed")
 _LF = "quara/loss_function/"
 ANCHORS = [
     _LF + "weighted_probability_based_squared_error.py:WeightedProbabilityBasedSquaredError.value",
@@ -97,7 +130,9 @@ REQUIRED_ORACLES = ["O1 configured weights == requested", "O2 value == formula(v
                     "O3 gradient == d(value) quadratic-exact", "O3 gradient == d(value) romberg",
                     "O3 hessian == d(gradient) quadratic-exact", "O3 hessian == d(gradient) romberg",
                     "O3 hessian symmetric", "O4 fast == generic value", "O4 fast == generic gradient",
-                    "O5 mode changes value", "relative_entropy == formula", "relative_entropy_vector == formula",
+                    "O5 mode changes value", "H history step succeeds", "H O4 fast == generic value (objects with a history)",
+                    "H O4 fast == generic gradient (objects with a history)", "H returned arrays unchanged by later calls",
+                    "relative_entropy == formula", "relative_entropy_vector == formula",
                     "gradient_relative_entropy_2nd == formula", "gradient_relative_entropy_2nd_vector == formula",
                     "hessian_relative_entropy_2nd == formula", "calc_covariance_mat == (diag(q)-qq^T)/n",
                     "replace_prob_dist contract", "SimpleQuadratic value == |var-ref|^2"]
@@ -315,9 +350,15 @@ class Judge:
         self.max_dirs_hess = 8
 
     # -------------------------------------------------------------- registry
-    def register(self, loss, fam, cls, model, mode, path, expected, quadratic):
+    def register(self, loss, fam, cls, model, mode, path, expected, quadratic, suffix="", history=None, max_dirs=None):
+        """(re-)registers a loss object: `model`, `expected` describe the configuration it has been given last.
+        suffix: appended to every violation key judged in this state (history steps: ":second-call",
+        ":after-setter", ":re-used-object"); history: the supported public operations the object went through."""
         meta = {"loss": loss, "fam": fam, "cls": cls, "model": model, "mode": mode, "path": path,
-                "expected": expected, "quadratic": quadratic, "fail_keys": []}
+                "expected": expected, "quadratic": quadratic, "fail_keys": [], "suffix": suffix,
+                "history": list(history or []), "max_dirs": max_dirs}
+        if max_dirs is not None:
+            meta["grad_checks"] = 1
         self.reg[id(loss)] = meta
         return meta
 
@@ -335,6 +376,8 @@ class Judge:
         mo = meta["model"]
         d = {"class": meta["cls"], "mode": meta["mode"], "path": meta["path"], "m": mo.m, "schedules": mo.K, "n_var": mo.nvar,
              "n_data": mo.ns[:4], "q0": mo.qs[0]}
+        if meta.get("history"):
+            d["history"] = " -> ".join(meta["history"])
         d.update(kw)
         return d
 
@@ -346,6 +389,7 @@ class Judge:
         family = "WeightedProbabilityBasedSquaredError" if fam == "SE" else "WeightedRelativeEntropy"
         vis = _vis_weights(meta["loss"], fam)
         exp = meta["expected"]
+        sfx = meta.get("suffix", "")
         name = "O1 configured weights == requested"
         if exp["kind"] == "identity":
             ok = vis is None
@@ -355,7 +399,7 @@ class Judge:
                     ok = all(np.array_equal(np.asarray(W), np.eye(model.m)) for W in vis)
                 else:
                     ok = all(float(w) == 1.0 for w in vis)
-            key = f"{family}:identity:previous-weights-kept"
+            key = f"{family}:identity:previous-weights-kept{sfx}"
             if not ok:
                 self._fail(meta, key)
             ctx.truth(name, ok, key=key, info=self._info(meta, visible=vis[0] if vis is not None else None))
@@ -363,26 +407,26 @@ class Judge:
         if exp["kind"] == "custom":
             want = exp["weights"]
             if vis is None:
-                key = f"{family}:{mode}:option-weights-never-set"
+                key = f"{family}:{mode}:option-weights-never-set{sfx}"
                 self._fail(meta, key)
                 ctx.truth(name, False, key=key, info=self._info(meta, visible=None, requested=want[0]))
                 return
             ok = len(vis) == len(want) and all(np.array_equal(np.asarray(a, dtype=np.float64), np.asarray(b, dtype=np.float64)) for a, b in zip(vis, want))
-            key = f"{family}:{mode}:configured-weights!=requested"
+            key = f"{family}:{mode}:configured-weights!=requested{sfx}"
             if not ok:
                 self._fail(meta, key)
             ctx.truth(name, ok, key=key, info=self._info(meta, visible=vis[0], requested=want[0]))
             return
         # inverse covariance family
         if vis is None:
-            key = f"{family}:{mode}:option-weights-never-set"
+            key = f"{family}:{mode}:option-weights-never-set{sfx}"
             self._fail(meta, key)
             ctx.truth(name, False, key=key, info=self._info(meta, visible=None))
             return
         # structural: shape, symmetric, PSD
         okshape = len(vis) == model.K and all(np.asarray(W).shape == (model.m, model.m) for W in vis)
         if not okshape:
-            key = f"{family}:{mode}:weights-wrong-shape"
+            key = f"{family}:{mode}:weights-wrong-shape{sfx}"
             self._fail(meta, key)
             ctx.truth("O1 inverse-covariance weights symmetric PSD", False, key=key, info=self._info(meta))
             return
@@ -392,14 +436,14 @@ class Judge:
             s = max(float(np.max(np.abs(W))), 1e-300)
             worst_sym = max(worst_sym, float(np.max(np.abs(W - W.T))) / s)
             worst_psd = max(worst_psd, max(0.0, -float(np.linalg.eigvalsh((W + W.T) / 2)[0])) / s)
-        key = f"{family}:{mode}:weights-not-symmetric-psd"
+        key = f"{family}:{mode}:weights-not-symmetric-psd{sfx}"
         r = ctx.num("O1 inverse-covariance weights symmetric PSD", max(worst_sym, worst_psd), 1e-12, 1e-9, key=key, info=self._info(meta))
         if r == "fail":
             self._fail(meta, key)
         if exp["kind"] == "alias":
             # undocumented alias: only "weights are set and are not identity"
             nonid = any(not np.allclose(np.asarray(W), np.eye(model.m), rtol=1e-6, atol=0) for W in vis)
-            key = f"{family}:{mode}:weights-are-identity"
+            key = f"{family}:{mode}:weights-are-identity{sfx}"
             if not nonid:
                 self._fail(meta, key)
             ctx.truth(name, nonid, key=key, info=self._info(meta))
@@ -420,7 +464,7 @@ class Judge:
             worst = max(worst, best)
         for k, v in which.items():
             ctx.count(f"inverse-covariance weights match candidate '{k}'", v)
-        key = f"{family}:{mode}:weights!=documented-definition"
+        key = f"{family}:{mode}:weights!=documented-definition{sfx}"
         r = ctx.num(name, worst, 1e-9, 1e-6, key=key, info=self._info(meta, visible=vis[0], candidates=[c[1] for c in exp["cands"][0]]))
         if r == "fail":
             self._fail(meta, key)
@@ -445,12 +489,13 @@ class Judge:
             ctx.skip(name)   # visible weights of a shape the formula cannot use: O1's business
             return
         err = _relerr(result, want, scale)
-        key = f"{cls}:{what}!=formula"
+        sfx = meta.get("suffix", "")
+        key = f"{cls}:{what}!=formula{sfx}"
         if not (err <= 1e-8):
             if vis is not None:
                 unw, usc = refn(model, None, var, what)
                 if _relerr(result, unw, usc) <= 1e-9:
-                    key = f"{cls}:visible-weights-not-applied"
+                    key = f"{cls}:visible-weights-not-applied{sfx}"
         r = ctx.num(name, err, 1e-11, 1e-8, key=key, info=self._info(meta, what=what, got=np.asarray(result), want=np.asarray(want), var=var))
         if r == "fail":
             self._fail(meta, key)
@@ -481,10 +526,11 @@ class Judge:
         kind = "quadratic-exact" if quad else "romberg"
         lhs = "gradient == d(value)" if what == "gradient" else "hessian == d(gradient)"
         name = f"O3 {lhs} {kind}"
-        key = f"{cls}:{what}!=d({'value' if what == 'gradient' else 'gradient'})"
+        sfx = meta.get("suffix", "")
+        key = f"{cls}:{what}!=d({'value' if what == 'gradient' else 'gradient'}){sfx}"
         if got.shape != ((n,) if what == "gradient" else (n, n)) or not np.all(np.isfinite(got)):
-            ctx.truth(name, False, key=f"{cls}:{what}:bad-shape-or-non-finite", info=self._info(meta, shape=list(got.shape)))
-            self._fail(meta, f"{cls}:{what}:bad-shape-or-non-finite")
+            ctx.truth(name, False, key=f"{cls}:{what}:bad-shape-or-non-finite{sfx}", info=self._info(meta, shape=list(got.shape)))
+            self._fail(meta, f"{cls}:{what}:bad-shape-or-non-finite{sfx}")
             return
         if meta["fam"] == "RE" and not re_judgeable(meta["model"], x):
             ctx.skip(name)
@@ -536,7 +582,7 @@ class Judge:
         if H.ndim != 2 or H.shape[0] != H.shape[1]:
             return
         s = max(float(np.max(np.abs(H))), 1e-300)
-        key = f"{meta['cls']}:hessian-not-symmetric"
+        key = f"{meta['cls']}:hessian-not-symmetric{meta.get('suffix', '')}"
         r = self.ctx.num("O3 hessian symmetric", float(np.max(np.abs(H - H.T))) / s, 1e-12, 1e-9, key=key, info=self._info(meta))
         if r == "fail":
             self._fail(meta, key)
@@ -570,6 +616,8 @@ def install(ctx):
             # 2 n_var directions at the first point of every loss object, 8 at the further points
             nv = meta["model"].nvar
             nd = 2 * nv if meta.get("grad_checks", 0) == 0 else min(2 * nv, 8)
+            if meta.get("max_dirs"):
+                nd = min(nd, meta["max_dirs"])      # history steps: O2 is the deciding oracle, O3 only samples
             meta["grad_checks"] = meta.get("grad_checks", 0) + 1
             J.judge_derivative(meta, self.value, var, result, "gradient", nd)
         return post
@@ -582,7 +630,7 @@ def install(ctx):
                 return
             J.judge_formula(meta, var, result, "hessian")
             J.judge_symmetric(meta, result)
-            J.judge_derivative(meta, self.gradient, var, result, "hessian", min(2 * meta["model"].nvar, J.max_dirs_hess))
+            J.judge_derivative(meta, self.gradient, var, result, "hessian", min(2 * meta["model"].nvar, meta.get("max_dirs") or J.max_dirs_hess))
         return post
 
     for cls in (Q.SE, Q.RE, Q.FSE, Q.FRE):
@@ -604,7 +652,7 @@ def install(ctx):
         v = np.asarray(var, dtype=np.float64)
         want = float(np.sum((v - r) ** 2))
         ctx.num("SimpleQuadratic value == |var-ref|^2", abs(float(result) - want) / max(want, 1e-300), 1e-13, 1e-9,
-                key="SimpleQuadraticLossFunction:value!=formula", info={"n": v.size, "got": float(result), "want": want})
+                key="SimpleQuadraticLossFunction:value!=formula" + m.get("suffix", ""), info={"n": v.size, "got": float(result), "want": want})
 
     def post_sq_gradient(result, snap, self, var, *a, **kw):
         m = sq_meta(self)
@@ -615,8 +663,8 @@ def install(ctx):
         v = np.asarray(var, dtype=np.float64)
         want = 2 * (v - r)
         ctx.num("SimpleQuadratic gradient == 2(var-ref)", _relerr(result, want, float(np.max(np.abs(want))) if want.size else 1.0), 1e-13, 1e-9,
-                key="SimpleQuadraticLossFunction:gradient!=formula", info={"n": v.size})
-        J.judge_derivative(m, self.value, v, result, "gradient", 2 * v.size)
+                key="SimpleQuadraticLossFunction:gradient!=formula" + m.get("suffix", ""), info={"n": v.size})
+        J.judge_derivative(m, self.value, v, result, "gradient", min(2 * v.size, m.get("max_dirs") or 2 * v.size))
 
     def post_sq_hessian(result, snap, self, var, *a, **kw):
         m = sq_meta(self)
@@ -626,9 +674,9 @@ def install(ctx):
         v = np.asarray(var, dtype=np.float64)
         want = 2 * np.eye(v.size)
         ctx.num("SimpleQuadratic hessian == 2I", _relerr(result, want, 2.0), 1e-13, 1e-9,
-                key="SimpleQuadraticLossFunction:hessian!=formula", info={"n": v.size})
+                key="SimpleQuadraticLossFunction:hessian!=formula" + m.get("suffix", ""), info={"n": v.size})
         J.judge_symmetric(m, result)
-        J.judge_derivative(m, self.gradient, v, result, "hessian", min(2 * v.size, J.max_dirs_hess))
+        J.judge_derivative(m, self.gradient, v, result, "hessian", min(2 * v.size, m.get("max_dirs") or J.max_dirs_hess))
 
     hs.method(Q.SQ, "value", post=post_sq_value)
     hs.method(Q.SQ, "gradient", post=post_sq_gradient)
@@ -806,16 +854,24 @@ def shards(tier, seed):
     return out
 
 
-def build_qt(Q, p, rng):
-    """random tomography of the shard's type; returns (qt, true object maker)"""
+def build_qt(Q, p, rng, counts=None, counts_out=None):
+    """random tomography of the shard's type; returns (qt, true object maker).
+    counts = {"nst", "extra"}: the numbers of tester states / additional POVMs that the first tomography of the
+    case drew; given for the second tomography, which is to have the SAME shape (schedules, outcomes, variables)"""
     dim, m, flag = p["dim"], p["m"], p["flag"]
     c = gen.make_csys([dim])
     d = c.dim
     nst = d * d + int(rng.integers(0, 2))
+    if counts is not None:
+        nst = counts["nst"]
+    extra = 0
     states = [gen.make_state(c, 0.85 * ref.rand_density(d, rng) + 0.15 * np.eye(d) / d) for _ in range(nst)]
     t = p["qt"]
     if t == "qst":
-        npovm = max(2, int(np.ceil((d * d - 1) / (m - 1))) + int(rng.integers(0, 2)))
+        extra = int(rng.integers(0, 2))
+        if counts is not None:
+            extra = counts["extra"]
+        npovm = max(2, int(np.ceil((d * d - 1) / (m - 1))) + extra)
         povms = [gen.rand_povm(c, m, rng) for _ in range(npovm)]
         qt = Q.StandardQst(povms, on_para_eq_constraint=flag)
         mk = lambda r: gen.rand_state(c, r, on_para_eq_constraint=flag)  # noqa: E731
@@ -838,6 +894,8 @@ def build_qt(Q, p, rng):
         mk = lambda r: gen.rand_mprocess(c, 2, r, on_para_eq_constraint=flag)  # noqa: E731
     else:
         raise ValueError(t)
+    if counts_out is not None:
+        counts_out.update({"nst": nst, "extra": extra})
     return qt, mk
 
 
@@ -952,7 +1010,8 @@ def expected_for(fam, mode, model, custom):
     if mode == "identity":
         return {"kind": "identity"}
     if mode == "custom":
-        return {"kind": "custom", "weights": custom}
+        # pristine copies: the list handed to the library is a different one (the library keeps the caller's list)
+        return {"kind": "custom", "weights": [np.array(w, dtype=np.float64) for w in custom] if fam == "SE" else [float(w) for w in custom]}
     unbiased = mode != "inverse_sample_covariance"
     cands = [inv_cov_candidates(model.qs[j], model.ns[j], unbiased) for j in range(model.K)]
     return {"kind": "alias" if mode == "unbiased_inverse_covariance" else "invcov", "cands": cands}
@@ -1011,9 +1070,12 @@ def configure(ctx, Q, J, qt, model, fam, fast, mode, path, custom, data, need_he
 
 
 def run_loss_case(ctx, Q, hs, J, p, case):
+    import types
+
     rng = ctx.rng()
     J.dir_rng = ctx.rng(1)
-    qt, mk = build_qt(Q, p, rng)
+    counts = {}
+    qt, mk = build_qt(Q, p, rng, counts_out=counts)
     m = qt.num_outcomes(0)
     A, b = qt.calc_matA(), qt.calc_vecB()
     var_true = np.asarray(mk(rng).to_var(), dtype=np.float64)
@@ -1042,6 +1104,7 @@ def run_loss_case(ctx, Q, hs, J, p, case):
                     "schedules": model.K, "data_style": style, "n": ns[:3], "q0": qs[0], "zero_entries": has_zero,
                     "points_SE": labels["SE"], "points_RE": labels["RE"], "custom_W0": W_custom[0], "custom_w": w_custom[:3]})
 
+    held = Held(ctx)
     for fam in ("SE", "RE"):
         cfgs = se_configs() if fam == "SE" else re_configs()
         custom = W_custom if fam == "SE" else w_custom
@@ -1075,11 +1138,14 @@ def run_loss_case(ctx, Q, hs, J, p, case):
                         grads.append(None)
                     else:
                         grads.append(np.asarray(g, dtype=np.float64))
+                        held.keep(f"{meta['cls']}:gradient", g)
                     if want_h and ip in (0, len(pts[fam]) - 1):
                         okh, H = ctx.attempt(loss.hessian, v.copy())
                         if not okh:
                             key = f"{meta['cls']}:{mode}:{path}:evaluation-raises:{type(H).__name__}"
                             ctx.violation(key, {"error": repr(H)[:300], "m": m, "what": "hessian", "site": ctx.exc_key(H)})
+                        else:
+                            held.keep(f"{meta['cls']}:hessian", H)
                     # coverage accounting
                     nonid = mode != "identity"
                     lab = labels[fam][ip]
@@ -1152,7 +1218,355 @@ def run_loss_case(ctx, Q, hs, J, p, case):
                     ctx.truth("O5 mode changes value", diff > 1e-6, key=key,
                               info={"class": r["meta"]["cls"], "mode": mode, "value": r["vals"][ip], "identity_value": b0["vals"][ip],
                                     "reference_values": cand_vals, "reference_identity": ref_id})
+        held.verify()
         J.reg.clear()
+
+    # ---- history / combination steps: the same oracles on loss objects that have a past
+    base = types.SimpleNamespace(qt=qt, mk=mk, m=m, A=np.asarray(A, dtype=np.float64), b=np.asarray(b, dtype=np.float64), P=P,
+                                 model=model, data=data, counts=counts)
+    run_loss_history(ctx, Q, J, p, case, base)
+    J.reg.clear()
+
+
+# ============================================== history / combination steps
+
+class Held:
+    """arrays the library returned, kept by the caller: a later library call must not change them (a result that
+    aliases an internal buffer / cache would).  The very same array object is compared with a copy taken when it was
+    returned, so no rounding is involved."""
+
+    def __init__(self, ctx):
+        self.ctx = ctx
+        self.items = []
+
+    def keep(self, label, arr):
+        if isinstance(arr, np.ndarray):
+            self.items.append((label, arr, arr.copy()))
+
+    def verify(self):
+        for label, arr, snap in self.items:
+            same = arr.shape == snap.shape and bool(np.array_equal(arr, snap, equal_nan=True))
+            self.ctx.truth("H returned arrays unchanged by later calls", same, key=f"{label}:result-modified-by-later-call",
+                           info={"returned": snap, "now": arr})
+        self.items = []
+
+
+def make_setting(Q, p, rng, counts=None):
+    """a further tomography with its own data (used by the history steps only)"""
+    import types
+
+    qt, mk = build_qt(Q, p, rng, counts=counts)
+    m = qt.num_outcomes(0)
+    A, b = np.asarray(qt.calc_matA(), dtype=np.float64), np.asarray(qt.calc_vecB(), dtype=np.float64)
+    var_true = np.asarray(mk(rng).to_var(), dtype=np.float64)
+    P = (A @ var_true + b).reshape(qt.num_schedules, m)
+    ns, qs, _ = make_data(rng, P, m)
+    model = Model(A, b, m, ns, qs)
+    return types.SimpleNamespace(qt=qt, mk=mk, m=m, A=A, b=b, P=P, model=model, data=[(n, q.copy()) for n, q in zip(ns, qs)])
+
+
+def other_shape_params(p):
+    """parameters of a tomography of the same type but another shape (other parametrisation => other number of
+    variables; other number of outcomes where that is cheap)"""
+    q = dict(p)
+    q["flag"] = not p["flag"]
+    if p["qt"] in ("qst", "povmt", "qpt") and p["dim"] == 2:
+        q["m"] = (p["m"] % 4) + 2           # 2->4, 3->5, 4->2, 5->3
+    elif p["qt"] == "qmpt":
+        q["m"] = 2 if p["m"] > 2 else 3
+    return q
+
+
+def fresh_data(rng, S):
+    """new empirical distributions for the tomography of setting S: (model, data)"""
+    ns, qs, _ = make_data(rng, S.P, S.m)
+    return Model(S.A, S.b, S.m, ns, qs), [(n, q.copy()) for n, q in zip(ns, qs)]
+
+
+def draw_custom(rng, fam, K, m):
+    if fam == "SE":
+        W = [rand_spd(rng, m) for _ in range(K)]
+        if K >= 2 and rng.random() < 0.2:
+            W[int(rng.integers(0, K))] = np.zeros((m, m))
+        return W
+    w = [float(x) for x in rng.choice([0.2, 0.5, 1.5, 3.0, 7.0], size=K) * rng.uniform(0.8, 1.25, size=K)]
+    if K >= 2 and rng.random() < 0.3:
+        w[int(rng.integers(0, K))] = 0.0
+    return w
+
+
+def copy_custom(fam, custom):
+    if custom is None:
+        return None
+    return [np.array(w, dtype=np.float64) for w in custom] if fam == "SE" else [float(w) for w in custom]
+
+
+def hist_points(rng, fam, model, mk, n):
+    pts = [v for _, v in eval_points(rng, model, mk, fam == "RE")]
+    return pts[:n]
+
+
+def plan_history(rng, Q, p, base, fam):
+    """the steps one veteran loss object V (and one rival R of the same class) go through; drawn once per family and
+    applied to the generic and to the fast class alike (so that O4 can compare them step by step).  Every step is a
+    public operation: constructor, set_from_standard_qtomography_option_data (what calc_estimate_sequence does with
+    one loss object for every dataset), set_prob_dists_q, set_weight_matrices / set_weights, the model setters."""
+    modes = SE_MODES if fam == "SE" else ["identity", "custom"]
+    S1 = base
+    S2 = make_setting(Q, p, rng, counts=base.counts)            # same type and SHAPE as S1, other testers and data
+    S2b = make_setting(Q, p, rng, counts=base.counts)           # a third one of that shape
+    S3 = make_setting(Q, other_shape_params(p), rng)            # other shape
+    K1, m1 = S1.model.K, S1.m
+    shape1 = (K1, m1, S1.model.nvar)
+
+    def mode_custom(S):
+        mode = str(rng.choice(modes))
+        return mode, (draw_custom(rng, fam, S.model.K, S.m) if mode == "custom" else None)
+
+    x0 = hist_points(rng, fam, S1.model, S1.mk, 2)
+
+    def pts_for(model, mk):
+        """one new point, and the veteran's first point again where the model has that shape (a memo keyed by the
+        argument alone answers for the old data / model / weights only when it sees the same argument again)"""
+        out = hist_points(rng, fam, model, mk, 1)
+        if x0 and model.nvar == x0[0].size:
+            ps = model.ps(x0[0])
+            if fam == "SE" or all(np.all(ps[j][model.qs[j] > 0] >= 1e-4) for j in range(model.K)):
+                out = [x0[0]] + out
+        return out
+
+    steps = []
+    # 1 a fresh object (option or constructor path)
+    start_path = "ctor" if rng.random() < 0.4 else "option"
+    mode1, custom1 = ("custom", draw_custom(rng, fam, K1, m1)) if start_path == "ctor" else mode_custom(S1)
+    steps.append({"who": "V", "kind": "create", "label": f"fresh({start_path},{mode1})", "path": start_path, "S": S1, "model": S1.model,
+                  "data": S1.data, "mode": mode1, "custom": custom1, "suffix": "", "pts": x0, "keep_option": True, "hessian": "always"})
+    # 2 a rival of the same class and the same shape, other tomography / data / mode
+    mode, custom = mode_custom(S2)
+    steps.append({"who": "R", "kind": "create", "label": f"rival fresh(option,{mode})", "path": "option", "S": S2, "model": S2.model,
+                  "data": S2.data, "mode": mode, "custom": custom, "suffix": "", "pts": pts_for(S2.model, S2.mk)})
+    # 3 ask both again (interleaved)
+    steps.append({"who": "V", "kind": "requery", "label": "asked again after the rival", "suffix": ":second-call", "pts": list(reversed(x0))})
+    steps.append({"who": "R", "kind": "requery", "label": "asked again after the veteran", "suffix": ":second-call", "pts": steps[1]["pts"]})
+    # 4 the estimator's pattern: same tomography, same option OBJECT, next dataset
+    mo, da = fresh_data(rng, S1)
+    steps.append({"who": "V", "kind": "reuse", "label": f"re-set(same tomography, same option,{mode1}, next dataset)", "S": S1, "model": mo, "data": da,
+                  "mode": mode1, "custom": custom1, "suffix": ":re-used-object", "use_kept_option": True, "keep_option": True,
+                  "pts": pts_for(mo, S1.mk)})
+    # 5 new data through the public setter
+    mo, da = fresh_data(rng, S1)
+    steps.append({"who": "V", "kind": "set_q", "label": "set_prob_dists_q(new data)", "model": mo, "suffix": ":after-setter",
+                  "pts": pts_for(mo, S1.mk)})
+    # 6, 7 weights through the public setter: other custom weights and None, in either order
+    wsteps = [{"who": "V", "kind": "set_w", "label": "set weights(custom)", "custom": draw_custom(rng, fam, K1, m1), "suffix": ":after-setter",
+               "pts": pts_for(mo, S1.mk)},
+              {"who": "V", "kind": "set_w", "label": "set weights(None)", "custom": None, "suffix": ":after-setter", "pts": pts_for(mo, S1.mk)}]
+    if rng.random() < 0.5:
+        wsteps.reverse()
+    steps += wsteps
+    # 8 another model of the same shape through the public setters (weights stay)
+    same_shape = [S for S in (S2, S2b) if (S.model.K, S.m, S.model.nvar) == shape1]
+    if len(same_shape) == 2:
+        mo2, da2 = fresh_data(rng, S2b)
+        steps.append({"who": "V", "kind": "set_model", "label": "model setters(other tomography, same shape) + set_prob_dists_q", "S": S2b,
+                      "model": mo2, "suffix": ":after-setter", "pts": pts_for(mo2, S2b.mk)})
+        # 9 documented re-use: yet another tomography of the same shape
+        mode, custom = mode_custom(S2)
+        mo2, da2 = fresh_data(rng, S2)
+        steps.append({"who": "V", "kind": "reuse", "label": f"re-set(other tomography of the same shape,{mode})", "S": S2, "model": mo2, "data": da2,
+                      "mode": mode, "custom": custom, "suffix": ":re-used-object", "hessian": "always", "pts": pts_for(mo2, S2.mk)})
+    # 10 documented re-use: other shape (sometimes value only: is_gradient_required=False)
+    mode, custom = mode_custom(S3)
+    steps.append({"who": "V", "kind": "reuse", "label": f"re-set(other shape,{mode})", "S": S3, "model": S3.model, "data": S3.data, "mode": mode,
+                  "custom": custom, "suffix": ":re-used-object", "value_only": bool(rng.random() < 0.3),
+                  "pts": pts_for(S3.model, S3.mk)})
+    # 11 documented re-use: back to the first tomography, new data, other mode
+    mo3, da3 = fresh_data(rng, S1)
+    mode, custom = mode_custom(S1)
+    steps.append({"who": "V", "kind": "reuse", "label": f"re-set(first tomography,{mode})", "S": S1, "model": mo3, "data": da3, "mode": mode,
+                  "custom": custom, "suffix": ":re-used-object", "hessian": True, "keep_option": True, "pts": pts_for(mo3, S1.mk)})
+    # 12 the rival is re-set with the veteran's option object and data list (objects that went through the library)
+    steps.append({"who": "R", "kind": "reuse", "label": f"rival re-set(veteran's option and data,{mode})", "S": S1, "model": mo3, "data": da3,
+                  "mode": mode, "custom": custom, "suffix": ":re-used-object", "use_kept_option": True, "pts": steps[-1]["pts"]})
+    return steps
+
+
+def run_loss_history(ctx, Q, J, p, case, base):
+    rng = ctx.rng(2)          # own stream: the first part of the case is what it was before the history steps existed
+    erng = ctx.rng(3)
+    small = base.model.nvar <= 20
+    for fam in ("SE", "RE"):
+        steps = plan_history(rng, Q, p, base, fam)
+        family = "WeightedProbabilityBasedSquaredError" if fam == "SE" else "WeightedRelativeEntropy"
+        wkw = "weight_matrices" if fam == "SE" else "weights"
+        results = {}
+        held = Held(ctx)
+        eseed = int(erng.integers(0, 2 ** 31))
+        for fast in (False, True):
+            cls = {("SE", False): Q.SE, ("SE", True): Q.FSE, ("RE", False): Q.RE, ("RE", True): Q.FRE}[(fam, fast)]
+            Opt = {("SE", False): Q.SEOpt, ("SE", True): Q.FSEOpt, ("RE", False): Q.REOpt, ("RE", True): Q.FREOpt}[(fam, fast)]
+            cname = cls.__name__
+            er = np.random.default_rng(eseed)        # same call order / validate flags for generic and fast
+            objs, metas, kept = {}, {}, {}
+            dead = set()
+            for st in steps:
+                who, kind = st["who"], st["kind"]
+                if who in dead or (kind != "create" and who not in objs) or (st.get("use_kept_option") and who == "R" and "data" not in kept):
+                    continue
+                loss, old = objs.get(who), metas.get(who)
+                hist = (old["history"] if old else []) + [st["label"]]
+                need_h = not fast
+
+                def act():
+                    if kind == "create":
+                        custom = copy_custom(fam, st["custom"])
+                        if st["path"] == "ctor":
+                            mo = st["model"]
+                            if fast:
+                                lo = cls(mo.nvar, [q.copy() for q in mo.qs], custom)
+                                lo.set_func_prob_dists_from_standard_qt(st["S"].qt)
+                                lo.set_func_gradient_prob_dists_from_standard_qt(st["S"].qt)
+                                return lo
+                            fp, fg, fh = closures(mo)
+                            return cls(mo.nvar, fp, fg, fh, [q.copy() for q in mo.qs], custom)
+                        lo = cls()
+                        opt = Opt(mode_weight=st["mode"], weights=custom)
+                        if st.get("keep_option"):
+                            kept["opt"] = opt
+                        lo.set_from_standard_qtomography_option_data(st["S"].qt, opt, st["data"], True, need_h)
+                        return lo
+                    if kind == "requery":
+                        return loss
+                    if kind == "set_q":
+                        loss.set_prob_dists_q([q.copy() for q in st["model"].qs])
+                        return loss
+                    if kind == "set_w":
+                        (loss.set_weight_matrices if fam == "SE" else loss.set_weights)(copy_custom(fam, st["custom"]))
+                        return loss
+                    if kind == "set_model":
+                        mo = st["model"]
+                        if fast:
+                            loss.set_func_prob_dists_from_standard_qt(st["S"].qt)
+                            loss.set_func_gradient_prob_dists_from_standard_qt(st["S"].qt)
+                        else:
+                            fp, fg, fh = closures(mo)
+                            loss.set_func_prob_dists(fp)
+                            loss.set_func_gradient_prob_dists(fg)
+                            loss.set_func_hessian_prob_dists(fh)
+                        loss.set_prob_dists_q([q.copy() for q in mo.qs])
+                        return loss
+                    if kind == "reuse":
+                        if st.get("use_kept_option") and who == "R":
+                            opt, data = kept["opt"], kept["data"]
+                        elif st.get("use_kept_option") and "opt" in kept:
+                            opt, data = kept["opt"], st["data"]
+                        else:
+                            opt = Opt(mode_weight=st["mode"], weights=copy_custom(fam, st["custom"]), weight_name="w" if st.get("keep_option") else None)
+                            data = st["data"]
+                        if st.get("keep_option"):
+                            kept["opt"], kept["data"] = opt, data
+                        loss.set_from_standard_qtomography_option_data(st["S"].qt, opt, data, not st.get("value_only", False), need_h)
+                        return loss
+                    raise ValueError(kind)
+
+                ok, res = ctx.attempt(act)
+                sfx = st["suffix"]
+                if not ok:
+                    key = f"{cname}:history:{kind}:{ctx.exc_key(res)}{sfx}"
+                    ctx.truth("H history step succeeds", False, key=key, info={"class": cname, "history": " -> ".join(hist), "error": repr(res)[:300]})
+                    dead.add(who)     # the object is in an undefined state now: nothing further is asked of it
+                    continue
+                ctx.truth("H history step succeeds", True)
+                ctx.count(f"history step: {kind}{' (rival)' if who == 'R' else ''}")
+                loss = objs[who] = res
+                # what the object has been given last
+                if kind in ("create", "reuse"):
+                    model, mode, path = st["model"], st["mode"], (st["path"] if kind == "create" else "re-set")
+                    expected = expected_for(fam, mode, model, st["custom"] if mode == "custom" else None)
+                elif kind == "requery":
+                    model, mode, path, expected = old["model"], old["mode"], old["path"], old["expected"]
+                elif kind in ("set_q", "set_model"):
+                    model, mode, path, expected = st["model"], old["mode"], old["path"], old["expected"]
+                else:
+                    model, path = old["model"], "setter"
+                    mode = "custom" if st["custom"] is not None else "identity"
+                    expected = expected_for(fam, mode, model, st["custom"])
+                meta = J.register(loss, fam, cname, model, mode, path, expected, quadratic=(fam == "SE"), suffix=sfx, history=hist,
+                                  max_dirs=2 if sfx else 4)
+                metas[who] = meta
+                if kind in ("create", "reuse", "set_w"):
+                    J.judge_config(meta)          # set_q / set_model do not touch the weights; O2 judges on the visible ones
+                try:
+                    meta["weights_at_step"] = copy_custom(fam, _vis_weights(loss, fam))
+                except Exception:
+                    meta["weights_at_step"] = None
+                # ---- ask (value and gradient in either order; hooks judge every call)
+                out = []
+                for v in st["pts"]:
+                    r = {"value": None, "gradient": None}
+                    whats = ["value", "gradient"]
+                    if er.random() < 0.5:
+                        whats.reverse()
+                    if st.get("value_only"):
+                        whats = ["value"]
+                    for what in whats:
+                        kw = {"validate": True} if er.random() < 0.2 else {}
+                        okc, val = ctx.attempt(getattr(loss, what), v.copy(), **kw)
+                        if not okc:
+                            key = f"{cname}:history:{kind}:evaluation-raises:{type(val).__name__}{sfx}"
+                            ctx.violation(key, {"error": repr(val)[:300], "what": what, "site": ctx.exc_key(val), "history": " -> ".join(hist)})
+                            J._fail(meta, key)
+                        elif what == "value":
+                            r["value"] = float(val)
+                            if abs(float(val)) > 0:
+                                ctx.nontrivial(p["qt"], p["dim"], model.m, p["flag"], cname, "history", st["label"], v, np.hstack(model.qs))
+                        else:
+                            r["gradient"] = np.asarray(val, dtype=np.float64)
+                            held.keep(f"{cname}:gradient", val)
+                    out.append(r)
+                # Hessians of the history: steps 1, 9 (and 11 for small models); the quick tier leaves the squared-error
+                # Hessian of the largest models (n_var > 50, ~1 s per call) to the thorough tier
+                want_h = small or ctx.tier != "quick" or (st.get("hessian") == "always" and (fam == "RE" or base.model.nvar <= 50))
+                if st.get("hessian") and not fast and st["pts"] and want_h:
+                    okh, H = ctx.attempt(loss.hessian, st["pts"][0].copy())
+                    if not okh:
+                        key = f"{cname}:history:{kind}:evaluation-raises:{type(H).__name__}{sfx}"
+                        ctx.violation(key, {"error": repr(H)[:300], "what": "hessian", "site": ctx.exc_key(H), "history": " -> ".join(hist)})
+                    else:
+                        held.keep(f"{cname}:hessian", H)
+                results[(fast, id(st))] = {"out": out, "meta": meta}
+
+        # ---- O4 fast == generic, step by step (same tomography, option / weights, data, point, history)
+        refn = se_ref if fam == "SE" else re_ref
+        for st in steps:
+            g_, f_ = results.get((False, id(st))), results.get((True, id(st)))
+            if g_ is None or f_ is None:
+                continue
+            prior = f_["meta"]["fail_keys"] + g_["meta"]["fail_keys"]
+            model = g_["meta"]["model"]
+            for ip, v in enumerate(st["pts"]):
+                if fam == "RE" and not re_judgeable(model, v):
+                    continue
+                for what in ("value", "gradient"):
+                    a, bb = g_["out"][ip][what], f_["out"][ip][what]
+                    if a is None or bb is None:
+                        continue
+                    sc = _hist_scale(refn, model, g_["meta"], v, what, a)
+                    key = prior[0] if prior else f"{f_['meta']['cls']}:fast!=generic:{what}{st['suffix'] or ':history-fresh'}"
+                    ctx.num(f"H O4 fast == generic {what} (objects with a history)", _relerr(bb, a, max(sc, 1e-300)), 1e-11, 1e-8, key=key,
+                            info={"history": " -> ".join(g_["meta"]["history"]), "generic": a, "fast": bb, "what": what, "family": family})
+        held.verify()
+        J.reg.clear()
+
+
+def _hist_scale(refn, model, meta, v, what, a):
+    """magnitude of the terms summed in `what` with the weights in force at that step (for the relative error)"""
+    w = meta.get("weights_at_step")
+    try:
+        _, sc = refn(model, w, v, what)
+        return sc
+    except Exception:
+        return float(np.max(np.abs(a)))
 
 
 def option_modes(ctx, Q):
@@ -1216,12 +1630,42 @@ def run_functions_case(ctx, Q, hs, J, case, second):
                   ("relative_entropy_vector", lambda: ent.relative_entropy_vector(q, pvec)),
                   ("gradient_relative_entropy_2nd", lambda: ent.gradient_relative_entropy_2nd(q, pvec, G))]
     res = {}
+    held = Held(ctx)
     for nme, call in calls:
         ok, v = ctx.attempt(call)
         if not ok:
             ctx.violation(f"entropy.{nme}:" + ctx.exc_key(v), {"q": q, "p": pvec, "p_kind": pk})
         else:
             res.setdefault(nme, v)
+            held.keep(f"entropy.{nme}", v)
+    # history: the same functions with ONE argument changed (a memo keyed by too little would answer for the first
+    # arguments), then the first arguments again; the hooks judge every call against the formula
+    hr = ctx.rng(2)
+    q_b = hr.dirichlet(np.ones(m))
+    q_b = np.where(q_b < 1e-5, 1e-5, q_b)
+    q_b = q_b / q_b.sum()
+    p_b = np.maximum(hr.dirichlet(np.ones(m)), 1e-5) * float(hr.choice([1.0, 1.0, 2.0]))
+    G_b = hr.standard_normal((m, nvar))
+    Hp_b = hr.standard_normal((m, nvar, nvar))
+    Hp_b = Hp_b + Hp_b.transpose(0, 2, 1)
+    variants = [("p", q, p_b, G, Hp), ("q", q_b, np.abs(pvec) + 1e-5, G, Hp), ("grad", q, p_b, G_b, Hp), ("hess", q, p_b, G, Hp_b),
+                ("first-again", q, pvec, G, Hp)]
+    for tag, qq, pp, GG, HH in variants:
+        vcalls = [("relative_entropy", lambda: ent.relative_entropy(qq, pp, is_valid_required=False)),
+                  ("relative_entropy_vector", lambda: ent.relative_entropy_vector(qq, pp, is_valid_required=False)),
+                  ("gradient_relative_entropy_2nd", lambda: ent.gradient_relative_entropy_2nd(qq, pp, GG, is_valid_required=False)),
+                  ("gradient_relative_entropy_2nd_vector", lambda: ent.gradient_relative_entropy_2nd_vector(qq, pp, GG, is_valid_required=False)),
+                  ("hessian_relative_entropy_2nd", lambda: ent.hessian_relative_entropy_2nd(qq, pp, GG, HH, is_valid_required=False))]
+        if tag in ("p", "q", "first-again"):
+            vcalls = vcalls[:4] if tag != "first-again" else vcalls
+        for nme, call in vcalls:
+            ok, v = ctx.attempt(call)
+            if not ok:
+                ctx.violation(f"entropy.{nme}:" + ctx.exc_key(v) + ":second-call", {"q": qq, "p": pp, "changed": tag})
+            else:
+                held.keep(f"entropy.{nme}", v)
+            ctx.count("history: entropy function called again with one argument changed")
+    held.verify()
     # scalar and vector forms agree
     if "relative_entropy" in res and "relative_entropy_vector" in res:
         s = float(np.sum(np.abs(res["relative_entropy_vector"])))
@@ -1258,6 +1702,21 @@ def run_functions_case(ctx, Q, hs, J, case, second):
     if not ok:
         ctx.violation("matrix_util.replace_prob_dist:" + ctx.exc_key(v), {"q": q2})
     ctx.nontrivial("matrix_util", q, q2, n)
+    # history: same q with another n, another q with the same n, the first arguments again; results kept by the caller
+    n_b = int(hr.choice([3, 50, 999]))
+    for args in ((q, n_b), (q_b, n), (q, n)):
+        ok, v = ctx.attempt(mu.calc_covariance_mat, *args)
+        if not ok:
+            ctx.violation("matrix_util.calc_covariance_mat:" + ctx.exc_key(v) + ":second-call", {"q": args[0], "n": args[1]})
+        else:
+            held.keep("matrix_util.calc_covariance_mat", v)
+    for args in ((q,), (q2, 1e-6), (q_b,), (q,), (q2,)):
+        ok, v = ctx.attempt(mu.replace_prob_dist, *args)
+        if not ok:
+            ctx.violation("matrix_util.replace_prob_dist:" + ctx.exc_key(v) + ":second-call", {"q": args[0]})
+        else:
+            held.keep("matrix_util.replace_prob_dist", v)
+    held.verify()
 
     # --- SimpleQuadraticLossFunction
     k = int(rng.integers(1, 13)) if not second else int(rng.choice([1, 16, 40]))
@@ -1269,14 +1728,36 @@ def run_functions_case(ctx, Q, hs, J, case, second):
     mo = Model(np.eye(k), -var_ref, k, [1], [np.zeros(k)])
     meta = J.register(loss, "SQ", "SimpleQuadraticLossFunction", mo, "none", "ctor", {"kind": "identity"}, quadratic=True)
     meta["var_ref"] = var_ref.copy()
-    for x in (var_ref + rng.standard_normal(k), var_ref.copy(), rng.standard_normal(k) * 30):
+    xs = (var_ref + rng.standard_normal(k), var_ref.copy(), rng.standard_normal(k) * 30)
+    for x in xs:
         for nme in ("value", "gradient", "hessian"):
             ok, v = ctx.attempt(getattr(loss, nme), x.copy())
             if not ok:
                 ctx.violation(f"SimpleQuadraticLossFunction.{nme}:" + ctx.exc_key(v), {"n": k})
+            else:
+                held.keep(f"SimpleQuadraticLossFunction:{nme}", v)
         ctx.nontrivial("SQ", var_ref, x)
     ok, v = ctx.attempt(loss.value, np.zeros(k + 1))
     ctx.truth("SimpleQuadratic rejects wrong shape", (not ok) and isinstance(v, ValueError), key="SimpleQuadraticLossFunction:accepts-wrong-shape")
+    # history: a rival of the same size with another reference point is built and asked, then the first object again
+    var_ref_b = hr.standard_normal(k) * float(hr.choice([0.1, 1.0, 10.0]))
+    ok, rival = ctx.attempt(Q.SQ, var_ref_b.copy())
+    if ok:
+        mo_b = Model(np.eye(k), -var_ref_b, k, [1], [np.zeros(k)])
+        meta_b = J.register(rival, "SQ", "SimpleQuadraticLossFunction", mo_b, "none", "ctor", {"kind": "identity"}, quadratic=True,
+                            suffix=":rival-of-same-size", max_dirs=4)
+        meta_b["var_ref"] = var_ref_b.copy()
+        meta["suffix"], meta["max_dirs"] = ":second-call", 4
+        for lo, x in ((rival, xs[0]), (loss, xs[0]), (rival, xs[2]), (loss, xs[2])):
+            for nme in ("gradient", "value", "hessian"):
+                ok, v = ctx.attempt(getattr(lo, nme), x.copy())
+                if not ok:
+                    ctx.violation(f"SimpleQuadraticLossFunction.{nme}:" + ctx.exc_key(v) + ":second-call", {"n": k})
+                else:
+                    held.keep(f"SimpleQuadraticLossFunction:{nme}", v)
+    else:
+        ctx.violation("SimpleQuadraticLossFunction.ctor:" + ctx.exc_key(rival) + ":second-call", {"n": k})
+    held.verify()
     J.reg.clear()
 
 
